@@ -20,7 +20,7 @@ CHECKS = {
          "Held on generated operation scripts over created, reopened and harness-built tables: model equality for regular tables, invariants/conservation/atomic errors everywhere, CopyTable aliasing by heap identity."),
  "C12": ("exploration", "reference record of page settings checked after every call, on the saved attributes and after reopen", "4/C12",
          "Held on generated setter sequences with boundary and near-standard sizes; tolerance half a twip and the documented 1 mm recognition tolerance."),
- "C13": ("exploration", "id-resolution monitor (styles, numbering, notes) over saved outputs + ledger of API-created styles", "3.1, 4/C13",
+ "C13": ("exploration", "id-resolution monitor (styles, numbering, notes) over saved outputs + ledgers of API-created styles and of in-place changes to registered styles, checked at every save", "3.1, 4/C13",
          "Held on explored histories mixing style API calls, styled content, lists, notes, saves and reopen; ids resolved by an independent reader."),
  "C14": ("exploration", "reference resolver (visited-set walk, first definer wins) compared per formatting element with GetStyleWithInheritance/ApplyStyleToXML; registry snapshot, Clone alias and scribble monitors; crash monitor for non-termination", "3.3, 4/C14",
          "Held on generated registries: every element x definer depth 0..3 enumerated, random basedOn graphs with cycles, self-loops and missing parents; all ids resolved and compared with the reference; registry unchanged; clones independent."),
@@ -45,7 +45,7 @@ CHECKS = {
  "C19": ("exploration", "crash/hang monitor + package monitor over hostile Markdown (inputs written to disk first) and token-sequence/formatting/structure comparison between the generator's block/inline tree and the converted document", "3.1, 3.4, 4/C19",
          "Held on hostile byte strings and on Markdown generated from the listed constructs with unique word tokens, under all 64 option combinations and TOC levels 0-7."),
  "C20": ("exploration", "unique-token ledger of the generated document checked in the exported Markdown (exactly once, body order, independent tokenisation of the markers around each token) and round-trip differential export -> convert -> export (block kind per token, fixpoint of the Markdown)", "4/C20",
-         "Held on generated documents over the exporter's vocabulary in every interleaving, with and without Markdown metacharacters in the text, under random export option combinations; the simple (non-GFM) table style is exempt from the round trip because it has no table syntax."),
+         "Held on generated documents over the exporter's vocabulary in every interleaving, with and without Markdown metacharacters in the text, under random export option combinations; the simple (non-GFM) table style is exempt from the round trip because it has no table syntax. Runs that touch inside a word are generated in half of the cases; three recorded known findings (KNOWN_FINDINGS.txt, DESIGN.md 7.1a) concern only those."),
 }
 PENDING = {}
 ALL = ["C%02d" % i for i in range(1, 21)]
